@@ -59,13 +59,17 @@ def queries(ctx, extra):
                 helper.append(("rotdown", 2, r, idx, ch))
                 ch = [2] * (r + 1); ch[idx] = big; ch[idx + 1] = 1
                 helper.append(("rotup", 3, r, idx, ch))
-    for nm, hop, r, idx, ch in helper:
-        ch4 = ch + [0] * (4 - len(ch))
-        qs.append(Query(name="btree_%s_r%d_i%d_%s" % (nm, r, idx, "".join(map(str, ch))), harness="c20_priq_btree.c", entry="h_btree_helper",
-                        defs=["-DV_NO_STO_STUBS", "-DV_BTREE_INTERNALS", "-DHOP=%d" % hop, "-DIDX=%d" % idx, "-DROOTK=%d" % r]
-                             + ["-DCH%d=%d" % (i, c) for i, c in enumerate(ch4)],
-                        unwind=6, unwindset=["btreeCheck0:2", "cnt:3", "paired:3"], timeout=600, group="btree",
-                        bound="%s at child %d of an arbitrary valid tree: root %d keys, children %s keys, symbolic keys" % (nm, idx, r, ch)))
+    for inner in (0, 1):
+        for nm, hop, r, idx, ch in helper:
+            ch4 = ch + [0] * (4 - len(ch))
+            qs.append(Query(name="btree_%s%s_r%d_i%d_%s" % (nm, "_inner" if inner else "", r, idx, "".join(map(str, ch))),
+                            harness="c20_priq_btree.c", entry="h_btree_helper",
+                            defs=["-DV_NO_STO_STUBS", "-DV_BTREE_INTERNALS", "-DHOP=%d" % hop, "-DIDX=%d" % idx, "-DROOTK=%d" % r]
+                                 + ["-DCH%d=%d" % (i, c) for i, c in enumerate(ch4)] + (["-DINNER"] if inner else []),
+                            unwind=6, unwindset=["btreeCheck0:3", "cnt:3", "paired:3"], timeout=900, group="btree",
+                            tiers=("quick", "thorough"),
+                            bound="%s at child %d of an arbitrary valid tree: root %d keys, children %s keys%s, symbolic keys"
+                                  % (nm, idx, r, ch, " (interior nodes over one-key leaves)" if inner else " (leaves)")))
     # dnf.c: attempted (harness/c20_dnf.c, formulas (l1 o l2) and ((l1 o1 l2) o2 l3) over 3 atoms): no verdict in 900 s / 1800 s --
     # symex of the heap-allocated variable-size terms does not finish; the DNF clause of C20 is therefore NOT claimed.
     # hash table: one step from every chain shape (bucket 0: 0..3 entries, bucket 1: 0..1), symbolic hash values;
